@@ -43,123 +43,170 @@ def _num_list(node):
     return out
 
 
+def _facts():
+    """Every fact group is extracted on its own: a construct outside the whitelist loses only the
+    facts of its group (they are then *omitted* from the generated file, so exactly the theorems
+    that mention them stop checking), never the whole file."""
+    facts, errors = {}, {}
+
+    def group(names, fn):
+        try:
+            got = fn()
+            for n in names:
+                facts[n] = got[n]
+        except Exception as e:  # TranslationError or an unexpected AST shape
+            for n in names:
+                errors[n] = repr(e)
+
+    def g_round(fname, key, mod=FAST):
+        def go():
+            return {key: _rounding_of(func(mod, fname), 'n_delay_samples')}
+        return go
+
+    def g_roll(fname, key, mod=FAST):
+        def go():
+            return {key: len(calls(func(mod, fname), 'np.roll')) > 0}
+        return go
+
+    group(['initRounding'], g_round('_energy_exchange_init_energy', 'initRounding'))
+    group(['exchangeRounding'], g_round('_energy_exchange', 'exchangeRounding'))
+    group(['collectRounding'], g_round('_collect_receiver_energy', 'collectRounding'))
+    group(['initUsesRoll'], g_roll('_energy_exchange_init_energy', 'initUsesRoll'))
+    group(['exchangeUsesRoll'], g_roll('_energy_exchange', 'exchangeUsesRoll'))
+    group(['collectUsesRoll'], g_roll('_collect_receiver_energy', 'collectUsesRoll'))
+
+    def g_guard():
+        f_init = func(FAST, '_energy_exchange_init_energy')
+        guarded = False
+        for n in ast.walk(f_init):
+            if isinstance(n, ast.If) and 'n_delay_samples < n_samples' in src(n.test):
+                guarded = True
+        return {'initGuarded': guarded}
+    group(['initGuarded'], g_guard)
+
+    def g_kang():
+        f_delay = func(KANG, '_add_delay')
+        rolls = calls(f_delay, 'np.roll')
+        zeroed = any(isinstance(n, ast.Assign) and isinstance(n.targets[0], ast.Subscript)
+                     and isinstance(n.value, ast.Constant) and n.value.value == 0
+                     for n in ast.walk(f_delay))
+        return {'kangDelayRolls': len(rolls) > 0, 'kangDelayZeroesHead': zeroed}
+    group(['kangDelayRolls', 'kangDelayZeroesHead'], g_kang)
+
+    def g_bake_wall():
+        f_bake = func(FAST, '_form_factors_with_directivity_dim')
+        wall_vars = [n for n in ast.walk(f_bake) if isinstance(n, ast.Assign)
+                     and isinstance(n.targets[0], ast.Name) and n.targets[0].id.startswith('wall_id')]
+        if len(wall_vars) != 1:
+            raise TranslationError('bake: expected exactly one wall_id assignment')
+        wsrc = src(wall_vars[0].value)
+        if 'patch_to_wall_ids[j]' in wsrc:
+            side = 'receiver'
+        elif 'patch_to_wall_ids[i]' in wsrc:
+            side = 'sender'
+        else:
+            raise TranslationError('bake: cannot tell whose wall id is used: ' + wsrc)
+        wall_name = wall_vars[0].targets[0].id
+        look = calls(f_bake, 'get_scattering_data_source')
+        if len(look) != 1 or src(look[0].args[3]) != wall_name:
+            raise TranslationError('bake: BRDF lookup does not use ' + wall_name)
+        return {'bakeWallOf': side}
+    group(['bakeWallOf'], g_bake_wall)
+
+    def g_bake_dist():
+        f_bake = func(FAST, '_form_factors_with_directivity_dim')
+        order = []
+        for n in ast.walk(f_bake):
+            if isinstance(n, ast.Assign) and isinstance(n.targets[0], ast.Name) and n.targets[0].id == 'distance':
+                order.append(('distance', n.lineno))
+            if isinstance(n, ast.AugAssign) and isinstance(n.op, ast.Div) and \
+                    isinstance(n.target, ast.Name) and n.target.id == 'difference_receiver':
+                order.append(('normalise', n.lineno))
+        order.sort(key=lambda x: x[1])
+        return {'bakeDistanceBeforeNormalise': [o[0] for o in order] == ['distance', 'normalise']}
+    group(['bakeDistanceBeforeNormalise'], g_bake_dist)
+
+    def g_boole():
+        f_boole = func(INTEG, '_newton_cotes_4th')
+        ret = [n for n in ast.walk(f_boole) if isinstance(n, ast.Return)][0]
+        e = ret.value
+        try:
+            assert isinstance(e, ast.BinOp) and isinstance(e.op, ast.Mult)
+            pre, summ = e.left, e.right
+            assert isinstance(pre, ast.BinOp) and isinstance(pre.op, ast.Div)
+            assert isinstance(pre.left, ast.BinOp) and isinstance(pre.left.op, ast.Mult)
+            assert src(pre.left.right) == 'h'
+            nums = [pre.left.left.value, pre.right.value]
+            terms = []
+            while isinstance(summ, ast.BinOp) and isinstance(summ.op, ast.Add):
+                terms.append(summ.right)
+                summ = summ.left
+            terms.append(summ)
+            terms.reverse()
+            weights, idx = [], []
+            for tm in terms:
+                assert isinstance(tm, ast.BinOp) and isinstance(tm.op, ast.Mult)
+                weights.append(tm.left.value)
+                assert isinstance(tm.right, ast.Subscript) and src(tm.right.value) == 'y'
+                idx.append(tm.right.slice.value)
+        except (AssertionError, AttributeError):
+            raise TranslationError('boole: unexpected return expression ' + src(ret.value))
+        if idx != [0, 1, 2, 3, 4]:
+            raise TranslationError('boole: sample indices are ' + repr(idx))
+        hs = assigns_to(f_boole, 'h')
+        if len(hs) != 1 or src(hs[0].value) != 'x[1] - x[0]':
+            raise TranslationError('boole: step is not x[1]-x[0]')
+        for v in nums + weights:
+            if not isinstance(v, int) or isinstance(v, bool) or v < 0:
+                raise TranslationError('boole: weight is not a natural number: ' + repr(v))
+        return {'booleNum': nums[0], 'booleDen': nums[1], 'booleWeights': weights}
+    group(['booleNum', 'booleDen', 'booleWeights'], g_boole)
+
+    def g_stokes_np():
+        f_stokes = func(INTEG, 'stokes_integration')
+        np_args = set()
+        for c in calls(f_stokes, '_sample_boundary_regular'):
+            for k in c.keywords:
+                if k.arg == 'npoints':
+                    np_args.add(k.value.value)
+        if len(np_args) != 1:
+            raise TranslationError('stokes: npoints not unique')
+        return {'stokesNPoints': int(np_args.pop())}
+    group(['stokesNPoints'], g_stokes_np)
+
+    def g_stokes_cut():
+        f_stokes = func(INTEG, 'stokes_integration')
+        cut = set()
+        for n in ast.walk(f_stokes):
+            if isinstance(n, ast.Compare) and isinstance(n.ops[0], ast.Gt) and 'np.abs' in src(n.left):
+                if not isinstance(n.comparators[0], ast.Constant):
+                    raise TranslationError('stokes: extent cut-off is not a literal: ' + src(n))
+                cut.add(n.comparators[0].value)
+        if len(cut) != 1:
+            raise TranslationError('stokes: extent cut-off not unique')
+        return {'stokesCutoff': cut.pop()}
+    group(['stokesCutoff'], g_stokes_cut)
+
+    def g_nusselt():
+        f_univ = func(UNIV, 'universal_form_factor')
+        ns = [k.value.value for c in calls(f_univ, 'integration.nusselt_integration')
+              for k in c.keywords if k.arg == 'nsamples']
+        if len(ns) != 1:
+            raise TranslationError('universal: nsamples')
+        return {'nusseltSamples': int(ns[0])}
+    group(['nusseltSamples'], g_nusselt)
+
+    def g_coin():
+        f_coin = func(GEOM, '_coincidence_check')
+        thr = [d.value for a, d in zip(f_coin.args.args[-len(f_coin.args.defaults):], f_coin.args.defaults)
+               if a.arg == 'thres']
+        return {'coincidenceThreshold': thr[0]}
+    group(['coincidenceThreshold'], g_coin)
+    return facts, errors
+
+
 def generate():
-    facts = {}
-    f_init = func(FAST, '_energy_exchange_init_energy')
-    f_ex = func(FAST, '_energy_exchange')
-    f_col = func(FAST, '_collect_receiver_energy')
-    f_bake = func(FAST, '_form_factors_with_directivity_dim')
-    f_delay = func(KANG, '_add_delay')
-    f_boole = func(INTEG, '_newton_cotes_4th')
-    f_stokes = func(INTEG, 'stokes_integration')
-    f_univ = func(UNIV, 'universal_form_factor')
-    f_coin = func(GEOM, '_coincidence_check')
-
-    facts['initRounding'] = _rounding_of(f_init, 'n_delay_samples')
-    facts['exchangeRounding'] = _rounding_of(f_ex, 'n_delay_samples')
-    facts['collectRounding'] = _rounding_of(f_col, 'n_delay_samples')
-    facts['initUsesRoll'] = len(calls(f_init, 'np.roll')) > 0
-    facts['exchangeUsesRoll'] = len(calls(f_ex, 'np.roll')) > 0
-    facts['collectUsesRoll'] = len(calls(f_col, 'np.roll')) > 0
-    # the init store must be guarded by `n_delay_samples < n_samples`
-    guarded = False
-    for n in ast.walk(f_init):
-        if isinstance(n, ast.If) and 'n_delay_samples < n_samples' in src(n.test):
-            guarded = True
-    facts['initGuarded'] = guarded
-
-    # Kang _add_delay: np.roll followed by zeroing of the wrapped head
-    rolls = calls(f_delay, 'np.roll')
-    zeroed = any(isinstance(n, ast.Assign) and isinstance(n.targets[0], ast.Subscript)
-                 and isinstance(n.value, ast.Constant) and n.value.value == 0
-                 for n in ast.walk(f_delay))
-    facts['kangDelayRolls'] = len(rolls) > 0
-    facts['kangDelayZeroesHead'] = zeroed
-
-    # bake: which patch's wall is used for the BRDF lookup, and distance before normalising
-    wall_vars = [n for n in ast.walk(f_bake) if isinstance(n, ast.Assign)
-                 and isinstance(n.targets[0], ast.Name) and n.targets[0].id.startswith('wall_id')]
-    if len(wall_vars) != 1:
-        raise TranslationError('bake: expected exactly one wall_id assignment')
-    wsrc = src(wall_vars[0].value)
-    if 'patch_to_wall_ids[j]' in wsrc:
-        facts['bakeWallOf'] = 'receiver'
-    elif 'patch_to_wall_ids[i]' in wsrc:
-        facts['bakeWallOf'] = 'sender'
-    else:
-        raise TranslationError('bake: cannot tell whose wall id is used: ' + wsrc)
-    wall_name = wall_vars[0].targets[0].id
-    look = calls(f_bake, 'get_scattering_data_source')
-    if len(look) != 1 or src(look[0].args[3]) != wall_name:
-        raise TranslationError('bake: BRDF lookup does not use ' + wall_name)
-    # statement order: `distance = norm(difference)` must precede `difference /= ...`
-    order = []
-    for n in ast.walk(f_bake):
-        if isinstance(n, ast.Assign) and isinstance(n.targets[0], ast.Name) and n.targets[0].id == 'distance':
-            order.append(('distance', n.lineno))
-        if isinstance(n, ast.AugAssign) and isinstance(n.op, ast.Div) and \
-                isinstance(n.target, ast.Name) and n.target.id == 'difference_receiver':
-            order.append(('normalise', n.lineno))
-    order.sort(key=lambda x: x[1])
-    facts['bakeDistanceBeforeNormalise'] = [o[0] for o in order] == ['distance', 'normalise']
-
-    # Boole's rule
-    ret = [n for n in ast.walk(f_boole) if isinstance(n, ast.Return)][0]
-    e = ret.value
-    try:
-        assert isinstance(e, ast.BinOp) and isinstance(e.op, ast.Mult)
-        pre, summ = e.left, e.right
-        assert isinstance(pre, ast.BinOp) and isinstance(pre.op, ast.Div)
-        assert isinstance(pre.left, ast.BinOp) and isinstance(pre.left.op, ast.Mult)
-        assert src(pre.left.right) == 'h'
-        nums = [pre.left.left.value, pre.right.value]
-        terms = []
-        while isinstance(summ, ast.BinOp) and isinstance(summ.op, ast.Add):
-            terms.append(summ.right)
-            summ = summ.left
-        terms.append(summ)
-        terms.reverse()
-        weights, idx = [], []
-        for tm in terms:
-            assert isinstance(tm, ast.BinOp) and isinstance(tm.op, ast.Mult)
-            weights.append(tm.left.value)
-            assert isinstance(tm.right, ast.Subscript) and src(tm.right.value) == 'y'
-            idx.append(tm.right.slice.value)
-    except (AssertionError, AttributeError):
-        raise TranslationError('boole: unexpected return expression ' + src(ret.value))
-    if idx != [0, 1, 2, 3, 4]:
-        raise TranslationError('boole: sample indices are ' + repr(idx))
-    hs = assigns_to(f_boole, 'h')
-    if len(hs) != 1 or src(hs[0].value) != 'x[1] - x[0]':
-        raise TranslationError('boole: step is not x[1]-x[0]')
-    facts['booleNum'] = nums[0]
-    facts['booleDen'] = nums[1]
-    facts['booleWeights'] = weights
-
-    # stokes: npoints per edge, per-axis extent cut-off
-    np_args = set()
-    for c in calls(f_stokes, '_sample_boundary_regular'):
-        for k in c.keywords:
-            if k.arg == 'npoints':
-                np_args.add(k.value.value)
-    if len(np_args) != 1:
-        raise TranslationError('stokes: npoints not unique')
-    facts['stokesNPoints'] = np_args.pop()
-    cut = set()
-    for n in ast.walk(f_stokes):
-        if isinstance(n, ast.Compare) and isinstance(n.ops[0], ast.Gt) and 'np.abs' in src(n.left):
-            cut.add(n.comparators[0].value)
-    if len(cut) != 1:
-        raise TranslationError('stokes: extent cut-off not unique')
-    facts['stokesCutoff'] = cut.pop()
-
-    # universal: nusselt samples, coincidence threshold
-    ns = [k.value.value for c in calls(f_univ, 'integration.nusselt_integration') for k in c.keywords if k.arg == 'nsamples']
-    if len(ns) != 1:
-        raise TranslationError('universal: nsamples')
-    facts['nusseltSamples'] = ns[0]
-    thr = [d.value for a, d in zip(f_coin.args.args[-len(f_coin.args.defaults):], f_coin.args.defaults) if a.arg == 'thres']
-    facts['coincidenceThreshold'] = thr[0]
+    facts, errors = _facts()
 
     def b(x):
         return 'true' if x else 'false'
@@ -175,19 +222,29 @@ def generate():
     t.append('namespace Sparrow.Generated')
     t.append('inductive Rounding where | floor | ceil | round deriving DecidableEq, Repr')
     t.append('inductive Side where | sender | receiver deriving DecidableEq, Repr')
+
+    def emit(k, line):
+        if k in facts:
+            t.append(line(facts[k]))
+        else:
+            t.append('-- NOT TRANSLATED (omitted on purpose): %s: %s' % (k, errors.get(k, '?').replace('\n', ' ')))
+
     for k in ('initRounding', 'exchangeRounding', 'collectRounding'):
-        t.append('def %s : Rounding := .%s' % (k, facts[k]))
+        emit(k, lambda v, k=k: 'def %s : Rounding := .%s' % (k, v))
     for k in ('initUsesRoll', 'exchangeUsesRoll', 'collectUsesRoll', 'initGuarded',
               'kangDelayRolls', 'kangDelayZeroesHead', 'bakeDistanceBeforeNormalise'):
-        t.append('def %s : Bool := %s' % (k, b(facts[k])))
-    t.append('def bakeWallOf : Side := .%s' % facts['bakeWallOf'])
-    t.append('def booleNum : Nat := %d' % facts['booleNum'])
-    t.append('def booleDen : Nat := %d' % facts['booleDen'])
-    t.append('def booleWeights : List Nat := %s' % repr(list(facts['booleWeights'])))
-    t.append('def stokesNPoints : Nat := %d' % facts['stokesNPoints'])
+        emit(k, lambda v, k=k: 'def %s : Bool := %s' % (k, b(v)))
+    emit('bakeWallOf', lambda v: 'def bakeWallOf : Side := .%s' % v)
+    emit('booleNum', lambda v: 'def booleNum : Nat := %d' % v)
+    emit('booleDen', lambda v: 'def booleDen : Nat := %d' % v)
+    emit('booleWeights', lambda v: 'def booleWeights : List Nat := %s' % repr(list(v)))
+    emit('stokesNPoints', lambda v: 'def stokesNPoints : Nat := %d' % v)
     t.append('/-- (numerator, denominator) of the decimal literal in the source -/')
-    t.append('def stokesCutoff : Nat × Nat := %s' % q(facts['stokesCutoff']))
-    t.append('def nusseltSamples : Nat := %d' % facts['nusseltSamples'])
-    t.append('def coincidenceThreshold : Nat × Nat := %s' % q(facts['coincidenceThreshold']))
+    emit('stokesCutoff', lambda v: 'def stokesCutoff : Nat × Nat := %s' % q(v))
+    emit('nusseltSamples', lambda v: 'def nusseltSamples : Nat := %d' % v)
+    emit('coincidenceThreshold', lambda v: 'def coincidenceThreshold : Nat × Nat := %s' % q(v))
     t.append('end Sparrow.Generated')
+    facts = dict(facts)
+    if errors:
+        facts['_not_translated'] = errors
     return '\n'.join(t) + '\n', facts
